@@ -90,6 +90,14 @@ def seconds (d : Int) : Int := d
 def slice {α : Type} (a : List α) (lo hi : Int) : Option (List α) :=
   if lo < 0 ∨ hi < lo ∨ (a.length : Int) < hi then none else some ((a.take hi.toNat).drop lo.toNat)
 
+/-- `len(s)` of a string: its length in bytes -/
+def strLen (s : String) : Int := s.utf8ByteSize
+/-- `s[lo:hi]` of a string (byte offsets, checked); the cut is at character boundaries in every use that is translated
+    (an offset found by strings.IndexByte of an ASCII byte) -/
+def strSlice (s : String) (lo hi : Int) : Option String :=
+  if lo < 0 ∨ hi < lo ∨ strLen s < hi then none
+  else some (String.Pos.Raw.extract s ⟨lo.toNat⟩ ⟨hi.toNat⟩)
+
 /-! ### container/list -/
 
 /-- a `*list.Element`: its identity and its value (the lists of the repository hold one value type each) -/
